@@ -18,7 +18,7 @@ constructors are in Model/CtorNum.lean; the constructor lookup (`ctorOf`) and `n
 | types/hashtype.go `newGoConstructor3(["Hash","Struct"])` (key-value array and Iterable dispatches; the tree-array body is not modelled) | `hashCtor` |
 | types/hashtype.go `WrapHashFromArray`                     | `hashFromArray`              |
 | types/stringtype.go `stringValue.Elements` + `WrapValues` | `stringElements`             |
-| types/inittype.go `InitType.New` (without init arguments) | `initCall`                   |
+| types/inittype.go `InitType.New` / `create` (with and without init arguments) | `initCall`   |
 
 Quirks reproduced
 * `Convertible` admits a string only through `Pattern[/IntegerPattern/]` = sign, blanks, then `\d+`, `0x…` or `0b…`:
@@ -260,10 +260,12 @@ def anyCallable (c : Ctor) (args : List Val) : Bool :=
   | .called (.ran _) => true
   | _ => false
 
-/-- `InitType.New` without init arguments: the arguments as given when some signature accepts them; else a single array
-    argument is expanded; else the call that provokes the argument error -/
-def initCall (c : Ctor) (args : List Val) : CtorResult Val :=
-  if anyCallable c args then ctorCall c args
+/-- `InitType.create`: with init arguments `ia` (`Init[T, ia…]`) the constructor is called with the given arguments followed
+    by the init arguments, whatever they are; without, the arguments as given when some signature accepts them, else a
+    single array argument is expanded, else the call that provokes the argument error -/
+def initCall (c : Ctor) (ia : List Val) (args : List Val) : CtorResult Val :=
+  if !ia.isEmpty then ctorCall c (args ++ ia)
+  else if anyCallable c args then ctorCall c args
   else match args with
     | [.arr vs] => ctorCall c vs
     | _ => ctorCall c args
